@@ -240,12 +240,15 @@ Ltac exec1 H :=
   lazymatch type of H with
   | Err _ = Ok _ => discriminate H
   | Panic = Ok _ => discriminate H
-  | obind ?x _ = Ok _ => let E := fresh "E" in destruct x eqn:E; cbn [obind] in H; [|discriminate H|discriminate H]
+  | obind ?x _ = Ok _ => let E := fresh "E" in let st := fresh "st" in destruct x as [st| |] eqn:E; cbn [obind] in H; [|discriminate H|discriminate H]
   | (if ?b then _ else _) = Ok _ => let C := fresh "C" in destruct b eqn:C; [try discriminate H|try discriminate H]
   | match ?x with _ => _ end = Ok _ =>
       first [ match goal with M : x = _ |- _ => rewrite M in H end
             | let M := fresh "M" in destruct x eqn:M; try discriminate H ]
   end.
+
+(* run the checks up to the next bind *)
+Ltac exec_checks H := repeat (lazymatch type of H with obind _ _ = Ok _ => fail | _ => exec1 H end).
 
 Lemma get_ep_in c id ep : get_ep c id = Some ep -> In ep (epairs c).
 Proof. unfold get_ep. intros H. apply find_some in H. tauto. Qed.
@@ -306,14 +309,14 @@ Ltac exec_accrue H :=
   end.
 
 Ltac prod_rw :=
-  rewrite ?pfound_set, ?pcoll_set, ?pmint_set, ?pids_set;
+  rewrite ?pfound_f, ?pcoll_f, ?pmint_f, ?pids_f;
   repeat (ssimpl; match goal with
     | H : forall a p, ffound ?f a p = _ |- context [ffound ?f _ _] => rewrite H
     | H : forall a p, fcoll ?f a p = _ |- context [fcoll ?f _ _] => rewrite H
     | H : forall a p, fmint ?f a p = _ |- context [fmint ?f _ _] => rewrite H
     | H : forall a p, fids ?f a p = _ |- context [fids ?f _ _] => rewrite H
     end);
-  ssimpl; rewrite ?pfound_f, ?pcoll_f, ?pmint_f, ?pids_f.
+  ssimpl.
 
 Ltac bal_rw :=
   repeat (ssimpl; match goal with
